@@ -44,8 +44,8 @@ type World struct {
 	Kinds   map[string]*Kind
 	KindsL  []*Kind
 
-	ssaw *ssaWorld // lazily built
-	sc   *summaryCache
+	ssaw      *ssaWorld // lazily built
+	sc        *summaryCache
 	factCache map[string]*KindFacts
 }
 
